@@ -40,11 +40,7 @@
  * built into two libraries, so the few lines it needs are repeated here) */
 #ifdef LIBERASURECODE_VERIF
 void liberasurecode_verif_yield(int point);
-int verif_mutex_lock(void *lock);
-int verif_mutex_unlock(void *lock);
 #define VERIF_YIELD(p) liberasurecode_verif_yield(p)
-#define pthread_mutex_lock(l) verif_mutex_lock(l)
-#define pthread_mutex_unlock(l) verif_mutex_unlock(l)
 #else
 #define VERIF_YIELD(p)
 #endif
